@@ -221,8 +221,9 @@ CHECKS = {
               "layouts with the rf equation first and with rb/el/rf interleaved; extra kinds 'rbv' (damped rigid-body mode between the two "
               "documented cut-offs, 200 steps) and 'soft' (a soft heavy equation at a large step, rb set given or not) with their "
               "legality rules in the spec; coupling 'kcoupled' (a diagonal NON-UNIFORM mass handed over as a vector next to full damping and "
-              "stiffness, T = Q sqrt(D)), which is the mass form under which the modal pre-transformation weights initial conditions by a vector. "
-              "Random congruences are conditioned (cond(T) <= 30)."),
+              "stiffness, T = Q sqrt(D)), which is the mass form under which the modal pre-transformation weights initial conditions by a vector; coupling 'ncoupled' "
+              "(the coupled system with the equations of its elastic block combined by a conditioned L: m, b, k full and not symmetric, same "
+              "solution - a transposed mass solve is then visible). Random congruences are conditioned (cond(T) <= 30)."),
         ref="4/C01",
         note=("Trusted: TLC, the generic term evaluator (mpmath, 50 digits). Tolerance 1e-9 of the history scale; 5e-8 within 1e-6 of "
               "critical damping; 2e-3 for rigid-body damping below the documented cut-off. SolveUnc's coupled path is not asked to "
